@@ -117,9 +117,10 @@ const (
 	Call                 // consume the byte, push Ret, continue in state To (region entry)
 	Ret                  // consume the byte, pop, continue in the popped state
 	Exit                 // leave the function
+	CallM                // run the summarised machine Name from this byte (not consumed); continue in To at its end offset on success, in Fail on error
 )
 
-func (k TermKind) String() string { return [...]string{"move", "call", "ret", "exit"}[k] }
+func (k TermKind) String() string { return [...]string{"move", "call", "ret", "exit", "callm"}[k] }
 
 // Prim is a primitive action/mark attached to an edge. Kind is one of the names below; the remaining
 // fields are kind-specific and compared by the product checker where a rule says so.
@@ -146,6 +147,9 @@ type Term struct {
 	Delta int    // Exit OK: returned offset minus index of the byte under the cursor (0 = that byte is the first one not consumed)
 	Err   string // Exit !OK: description of the error value (informational)
 	VDep  bool   // exit taken under a value-dependent (⊤) branch
+	Name  string // CallM: machine name
+	Fail  int    // CallM: state continued in when the machine fails
+	Extra string // Exit OK: an additional result (token type, …) rendered as text
 }
 
 func (t Term) String() string {
@@ -156,6 +160,8 @@ func (t Term) String() string {
 		return fmt.Sprintf("call %d ret %d", t.To, t.Ret)
 	case Ret:
 		return "ret"
+	case CallM:
+		return fmt.Sprintf("machine %s then %d else %d", t.Name, t.To, t.Fail)
 	}
 	if t.OK {
 		return fmt.Sprintf("accept%+d", t.Delta)
@@ -184,8 +190,10 @@ type State struct {
 type EOFOutcome struct {
 	Prims []Prim
 	OK    bool
+	Delta int // OK: returned offset minus len(data) (0 for entry points; -1 for the number-tail helpers)
 	Err   string
 	VDep  bool
+	Term  *Term // non-nil: not an exit but a machine call performed before looking at the input
 }
 
 type LTS struct {
